@@ -157,13 +157,15 @@ func (m *Model) Run(inputs Tensors) (Tensors, error) {
 		return nil, err
 	}
 
+	// An initializer that is also listed as a graph input only provides the default value
+	// for that input: a tensor supplied by the caller takes precedence.
 	tensors := make(Tensors)
-	for inputName, inputTensor := range inputs {
-		tensors[inputName] = inputTensor
-	}
-
 	for parameterName, parameterTensor := range m.parameters {
 		tensors[parameterName] = parameterTensor
+	}
+
+	for inputName, inputTensor := range inputs {
+		tensors[inputName] = inputTensor
 	}
 
 	for _, n := range m.mp.Graph.GetNode() {
